@@ -753,6 +753,12 @@ def history_round(rep, r, tier):
     for ci in range(n):
         series = G.gen_series(r, tier) if ci % 5 else G.gen_series(r, tier, S=1, T=1, V=1)   # single-file stacks too
         nfiles = len(series['files'])
+        if nfiles > 1 and ci % 3 == 1:
+            # a pixel spacing that differs between the files by less than the tolerance of the congruence check (rounding in
+            # the last digits scanners write): which file was added first must not matter.  (The orientation is left alone:
+            # every file computes its slice position from its own orientation, and positions are compared exactly.)
+            jf = r.choice(series['files'])
+            jf['spacing'] = [series['spacing'][0] + 4e-5, series['spacing'][1] - 3e-5]
         base_order = list(range(nfiles))
         args = [(o, e) for o in [''] + r.sample(all_orders(), 5) for e in (False, True)]
         class Ref(dict):
